@@ -27,6 +27,9 @@ func CheckFilePermissionsForExecution(filePath string) (bool, error) {
 	if os.IsNotExist(err) {
 		return false, errors.New("file not found")
 	}
+	if err != nil {
+		return false, err
+	}
 
 	stat := info.Sys().(*syscall.Stat_t)
 	if stat.Uid != 0 {
